@@ -14,6 +14,7 @@ import (
 	"reservoir/cache"
 	"reservoir/metrics"
 	"reservoir/utils/bytesize"
+	"reservoir/utils/duration"
 	"reservoir/zzverif/vnet"
 	"reservoir/zzverif/vrun"
 	"reservoir/zzverif/vsched"
@@ -38,6 +39,10 @@ type psched struct {
 	// ignores Range and answers 200 with a NEW version (other size, other ETag), which the proxy
 	// stores under the same key outside any coalesced flight
 	Overwrite string `json:"overwrite"`
+	// Policy "force-1s": a thread switches force_default_max_age on with default_max_age=1s at any point
+	// of the exchange. If the switch was complete before the origin answered, the response is stored
+	// under the new policy: a request two seconds later must ask the origin again (C03).
+	Policy string `json:"policy"`
 	Prop      string `json:"prop"`
 }
 
@@ -89,8 +94,10 @@ func scenarioProxySched(c *vrun.Ctx) {
 		var preLog int
 		var evicted bool
 		var overwriter *vnet.Resp
+		var originAnswered, policyDone, laterContacts int
 		body := func() {
 			overwriter = nil
+			originAnswered, policyDone, laterContacts = 0, 0, -1
 			vtime.Reset()
 			env := newEnv(envOpts{Backend: p.Backend, DefaultMaxAgeS: 1000, CleanupIntervalS: p.TickS})
 			refreshProxyDemoted(env.cfg)
@@ -126,6 +133,7 @@ func scenarioProxySched(c *vrun.Ctx) {
 				if !gated {
 					gated = true
 					vsched.Gate("first-origin-answer")
+					originAnswered = vsched.Stamp()
 				}
 			}
 			if p.Overwrite == "range-get" {
@@ -168,6 +176,13 @@ func scenarioProxySched(c *vrun.Ctx) {
 			if p.LimitTo > 0 {
 				vsched.GoHarness("limit-change", func() { env.cfg.Cache.MaxCacheSize.Overwrite(bytesize.ByteSize(p.LimitTo)) })
 			}
+			if p.Policy == "force-1s" {
+				vsched.GoHarness("policy-change", func() {
+					env.cfg.Proxy.CachePolicy.DefaultMaxAge.Overwrite(duration.Duration(time.Second))
+					env.cfg.Proxy.CachePolicy.ForceDefaultMaxAge.Overwrite(true)
+					policyDone = vsched.Stamp()
+				})
+			}
 			if p.AdvanceS > 0 {
 				vsched.GoHarness("clock", func() { vtime.Advance(time.Duration(p.AdvanceS) * time.Second) })
 			}
@@ -182,6 +197,14 @@ func scenarioProxySched(c *vrun.Ctx) {
 				})
 			}
 			vsched.JoinHarness()
+			if p.Policy != "" {
+				vsched.Quiesce()
+				vtime.Advance(2 * time.Second)
+				before := len(env.origin.Log)
+				vnet.ServeRecorded(env.p, raw, nil, nil)
+				laterContacts = len(env.origin.Log) - before
+				env.origin.Log = env.origin.Log[:before]
+			}
 			originLog = append([]vnet.ReqRec(nil), env.origin.Log...)
 			cands = env.origin.Candidates()
 			version = res.Version
@@ -224,6 +247,9 @@ func scenarioProxySched(c *vrun.Ctx) {
 						c.Violation(p.Prop+"/"+p.Name+"/outdated-body", fmt.Sprintf("%s received version %d, the origin's current version is %d", who, cand.V, version), x)
 					}
 				}
+			}
+			if p.Policy == "force-1s" && policyDone != 0 && originAnswered != 0 && policyDone < originAnswered && laterContacts == 0 {
+				c.Violation("C03/"+p.Name+"/forced-default-lifetime-not-applied", fmt.Sprintf("force_default_max_age with default_max_age=1s was in force (switch complete at stamp %d) before the origin answered (stamp %d), yet a request two seconds later was served without contacting the origin", policyDone, originAnswered), x)
 			}
 			if overwriter != nil {
 				switch {
